@@ -212,6 +212,11 @@ theorem wf_step (m : Mesh) (s : Step) (h : WF m)
     split
     · exact h
     · exact h
+  | moveOnto r1 r2 =>
+    simp only [step, moveOnto, moveVertex]
+    split
+    · exact h
+    · exact h
   | modify n k st => exact h
   | setDefault n k => exact h
   | merge a b => exact h
